@@ -179,6 +179,10 @@ DIRECTED = [
 
 
 def shard_main(ctx):
+    if ctx.shard == 1 % ctx.nshards and ctx.tier == "thorough":
+        from ..core import repo_tests_under_monitors
+
+        repo_tests_under_monitors(ctx, "C15")
     if ctx.shard == 0:
         for t in DIRECTED:
             judge(ctx, astx.parse_expr(t), {"n": 2, "empty": 1, "stacked": 1}, {"directed": t})
